@@ -61,7 +61,7 @@ CLAIMED = {
    technique="TLA+ spec (WinconStream over WinconExtract) + TLC: enumerated SGR inputs replayed under all chunkings; recorded console calls validated by TLC"),
  "C20": dict(
    level="model_checking",
-   text="TLC runs four instances of the VtParser specification (fixed OSC buffer scaled to Cap bytes or unbounded, UTF-8 on or off) in lockstep over all 7-bit strings to a depth: identical callbacks and observationally equal states while no OSC payload exceeded the buffer; an oversize payload is truncated at the limit (a prefix, at most Cap bytes, later separators counted only while room remains) and what follows is parsed identically. Bound to the code by four recorder binaries built from the working tree (no features, core, utf8, core+utf8): 7-bit grammar streams plus OSC payloads of 1000..1100 bytes with 0..20 separators, each followed by ordinary sequences, are recorded and validated step by step by Trace_VtParser instantiated with that configuration's constants (OscRawCap = 1024 with core).",
+   text="TLC runs four instances of the VtParser specification (fixed OSC buffer scaled to Cap bytes or unbounded, UTF-8 on or off) in lockstep over all 7-bit strings to a depth: identical callbacks and observationally equal states while no OSC payload exceeded the buffer; an oversize payload is truncated at the limit (a prefix, at most Cap bytes, later separators counted only while room remains) and what follows is parsed identically. Bound to the code by five recorder binaries built from the working tree (no features, core, utf8, core+utf8, and the crate's own default feature set, which must be the unlimited configuration with UTF-8): 7-bit grammar streams plus OSC payloads of 1000..1100 bytes with 0..20 separators, each followed by ordinary sequences, are recorded and validated step by step by Trace_VtParser instantiated with that configuration's constants (OscRawCap = 1024 with core).",
    design="5/C20",
    note="Trusted: VtParser.tla with its OscRawCap/Utf8On constants, TLC. 7-bit inputs only. The existing test-suite command does not build the non-default feature sets; the check does.",
    technique="TLA+ spec (VtParser with configuration constants) + TLC: four-way lockstep refinement check; per-configuration trace validation of recorded callbacks"),
